@@ -87,11 +87,12 @@ def serviceReq (r : Req) : Option String := do
   let n := ops.length
   let (_, _, out) := ops.foldl (fun (acc : RegService.St × KeyMemo × List String) op =>
     let (s, m, out) := acc
-    let (s', res) := RegService.step s op
+    let (s', res) := RegService.step RegService.prod s op
     -- the harness probes the slots after the service calls and at the end of the history
     let serviceCall := match op with | .save _ => false | .prune _ => false | _ => true
     let (m', o) := observeService keys m s' (serviceCall || out.length + 1 == n)
-    (s', m', (showRes res ++ ";" ++ o) :: out)) ({}, [], [])
+    -- a panic ends the node: no observation after it (the harness ends the history there)
+    (s', m', (if res == .panic then "panic" else showRes res ++ ";" ++ o) :: out)) ({}, [], [])
   pure (String.intercalate " | " out.reverse)
 
 def hexOfString (t : String) : String := hexEncode t.toUTF8.toList
